@@ -147,4 +147,37 @@ theorem preEnqInv_step (hi : Inv s) (h : step s l = some s') : ∀ u, preEnq (s'
       simp [State.goto, upd_apply] at hu ⊢ <;> grind
     · simp [State.goto, upd_apply, ht] at hu ⊢ <;> grind)
 
+
+/-- with wait_all, the queue is empty when `m_queue_free` runs: nothing is discarded -/
+theorem waitall_queue_empty (hi : Inv s) (h0 : s.pc 0 = .fQueueFree) (hm : s.mode = true) : s.tasks = [] := by
+  cases ht : s.tasks with
+  | nil => rfl
+  | cons k ks =>
+    exfalso
+    have hth := hi.tasksThreads (by simp [ht])
+    cases hh : s.threads with
+    | nil => exact hth hh
+    | cons u us =>
+      have hw := (hi.workersIff u).mp (hi.thrSub u (by simp [hh]))
+      have hg := hi.goneAll (Or.inl (by simp [h0])) u hw
+      have he : exiting (s.pc u) = true := by revert hg; cases s.pc u <;> simp
+      have hs := hi.shutSet (by simp [h0])
+      rw [hm] at hs
+      have := hi.exitAllEmpty u he (by simpa using hs)
+      simp [ht] at this
+
+set_option maxHeartbeats 1000000 in
+theorem discPhase_step (hi : Inv s) (h : step s l = some s') :
+    ∀ k, (s'.task k).discarded = true → 13 ≤ ph (s'.pc 0) ∧ s'.mode = false := by
+  intro k hk
+  have h1 := hi.discPhase k
+  have h2 := waitall_queue_empty hi
+  have h4 := hi.othersNotM l.tid
+  have h5 := hi.mainIsM
+  step_cases h
+  all_goals (
+    by_cases h0 : l.tid = 0
+    · simp [State.goto, upd_apply, zero_eq, h0] at hk ⊢ <;> grind
+    · simp [State.goto, upd_apply, zero_eq, h0] at hk ⊢ <;> grind)
+
 end Lm.Thpool
